@@ -30,6 +30,7 @@ RULE = ("2..4 tasks issue 1..3 operations each (call key, cache_clear, cache_dis
 RULE += (' Also: planned failures of every standard exception type; None/0/() results for one key; a cancellation thrown into a worker must come out of the cached call (overlapping identical calls).')
 RULE += (' Also: opaque results.')
 RULE += (' Also: call objects created first and started later (a scheduling point between creation and start).')
+RULE += (' Also: cache_discard operations in the quiescent epilogue.')
 ASSUMPTIONS = ["cache contents during concurrency are not pinned, only constrained existentially at quiescence",
                "the OrderedDict LRU model is the one cross-validated against functools.lru_cache by C10"]
 EXHAUSTIVE_SUBSPACES = 'every scenario counted in scenarios_explored_exhaustively had ALL its interleavings executed'
@@ -63,7 +64,8 @@ def cases(tier, seed, shard, nshards):
                "cancel_task": rng.randrange(nt) if rng.random() < 0.4 else None,
                "runs": DFS_LIMIT[tier] if mode == "dfs" else RANDOM_RUNS[tier], "seed": rng.randrange(1 << 30),
                "exc": rng.choice(PLANNED_NAMES), "falsy_value": rng.choice([None, None, "none", "none", "zero", "empty", "opaque"]),
-               "epilogue": [rng.randrange(nkeys + 1) for _ in range(rng.randint(3, 7))],
+               "epilogue": [(["discard", rng.randrange(nkeys + 1)] if rng.random() < 0.2 else rng.randrange(nkeys + 1))
+                            for _ in range(rng.randint(3, 7))],
                "precreate": rng.random() < 0.3}
 
 
@@ -208,6 +210,11 @@ def execute(case, choose, cancel_at=None):
 
         async def epilogue():
             for key in case["epilogue"]:
+                if isinstance(key, list):
+                    # ["discard", k]: an entry discarded at quiescence is gone - whatever happened before
+                    cached.cache_discard(key[1])
+                    observed.append((None, tuple(cached.cache_info())))
+                    continue
                 v = await cached(key)
                 observed.append((v, tuple(cached.cache_info())))
 
@@ -226,6 +233,12 @@ def execute(case, choose, cancel_at=None):
                 hits, misses, runs = q.hits, q.misses, base_runs
                 ok = True
                 for key, (v, inf) in zip(case["epilogue"], observed):
+                    if isinstance(key, list):
+                        model.pop(key[1], None)
+                        if inf != (hits, misses, maxsize, len(model)):
+                            ok = False
+                            break
+                        continue
                     if key in model:
                         hits += 1
                         model.move_to_end(key)
